@@ -49,6 +49,9 @@ type SmtpScenario struct {
 	// DialAndSend, or DialWithContext + Send + Close on the shared connection, or the explicit
 	// DialToSMTPClientWithContext + SendWithSMTPClient + CloseWithSMTPClient, instead of DialAndSendWithContext)
 	Variant uint64 `json:"variant,omitempty"`
+	// CtxCancelInMsg = k > 0: the context handed to DialAndSendWithContext is cancelled while the body of
+	// the k-th message is being produced (a context meant for the dial that runs out during a send)
+	CtxCancelInMsg int `json:"ctx_cancel_in_msg,omitempty"`
 }
 
 type MsgResult struct {
@@ -217,10 +220,40 @@ func RunScenario(sc *SmtpScenario) (run *SmtpRun, msgs []*mail.Msg) {
 	for _, f := range later {
 		f(client)
 	}
+	ctx, cancel := context.WithCancel(context.Background())
+	defer cancel()
 	for i, sm := range sc.Msgs {
-		msgs = append(msgs, buildSmtpMsg(i, sm))
+		m := buildSmtpMsg(i, sm)
+		if sc.CtxCancelInMsg == i+1 && !sm.RenderFail {
+			var buf bytes.Buffer
+			if parts := m.GetParts(); len(parts) == 1 {
+				if content, err := parts[0].GetContent(); err == nil {
+					buf.Write(content)
+				}
+			}
+			content := buf.Bytes()
+			first := true
+			m.SetBodyWriter(mail.TypeTextPlain, func(w io.Writer) (int64, error) {
+				half := len(content) / 2
+				n1, err := w.Write(content[:half])
+				if err != nil {
+					return int64(n1), err
+				}
+				cancel()
+				if first {
+					first = false
+					time.Sleep(30 * time.Millisecond) // let whoever watches the context act
+				}
+				n2, err := w.Write(content[half:])
+				return int64(n1 + n2), err
+			})
+		}
+		msgs = append(msgs, m)
 	}
 	how := pick(4)
+	if sc.CtxCancelInMsg > 0 {
+		how = 0
+	}
 	if !watchdog(60*time.Second, func() {
 		defer func() {
 			if r := recover(); r != nil {
@@ -259,7 +292,7 @@ func RunScenario(sc *SmtpScenario) (run *SmtpRun, msgs []*mail.Msg) {
 				run.Err = fmt.Errorf("failed to close connection: %w", err)
 			}
 		default:
-			run.Err = client.DialAndSendWithContext(context.Background(), msgs...)
+			run.Err = client.DialAndSendWithContext(ctx, msgs...)
 		}
 	}) {
 		run.Panic = "the call did not return within 60 s of real time (all waits of the scripted peer are virtual or bounded by the configured timeout)"
